@@ -1,6 +1,7 @@
 SPECIFICATION Spec
 CONSTANTS
   Known <- TKnown
+  KnownFull <- TFull
   Unknown <- TUnknown
   Calls <- TCalls
   Depth = 8
